@@ -69,6 +69,10 @@ func Cheque(id, user, amount, lockAcc)
         && notifs == old(notifs) ++ [Cheque(id, user, amount, lockAcc)] && store == old(store)
   // without Notary nothing but the ballot list is written
   ensures [C17] forall k Bytes {store.opt(k)} :: k != "ballots" ==> store.opt(k) == old(store).opt(k)
+  // the vote is cast for, and a fired decision clears, the ballot of this decision id (votes for different ids never mix)
+  ensures [C17] xcalls("Vote").len == old(xcalls("Vote")).len + 1 ==> exists v Bytes :: xcalls("Vote")[old(xcalls("Vote")).len] == ev_Vote(id, v)
+  ensures [C17] xcalls("RemoveVotes").len == old(xcalls("RemoveVotes")).len || (xcalls("RemoveVotes").len == old(xcalls("RemoveVotes")).len + 1
+        && xcalls("RemoveVotes")[old(xcalls("RemoveVotes")).len] == ev_RemoveVotes(id))
 
 func InnerRingCandidateAdd(key)
   ensures [C19] W(key) && !old(store).has("candidates" ++ key)
@@ -113,6 +117,10 @@ func SetConfig(id, key, val)
   ensures [C17] !notaryDisabled(old(store)) ==> W(alphabet())
   ensures [C17] notifs == old(notifs) || notifs == old(notifs) ++ [SetConfig(id, key, val)]
   ensures [C17] forall k Bytes {store.opt(k)} :: k != "ballots" && k != "config" ++ key ==> store.opt(k) == old(store).opt(k)
+  // the vote is cast for, and a fired decision clears, the ballot of this decision id (votes for different ids never mix)
+  ensures [C17] xcalls("Vote").len == old(xcalls("Vote")).len + 1 ==> exists v Bytes :: xcalls("Vote")[old(xcalls("Vote")).len] == ev_Vote(id, v)
+  ensures [C17] xcalls("RemoveVotes").len == old(xcalls("RemoveVotes")).len || (xcalls("RemoveVotes").len == old(xcalls("RemoveVotes")).len + 1
+        && xcalls("RemoveVotes")[old(xcalls("RemoveVotes")).len] == ev_RemoveVotes(id))
 
 func AlphabetUpdate(id, args)
   ensures [C17] notaryDisabled(old(store)) ==> xcalls("Vote").len == old(xcalls("Vote")).len + 1
@@ -122,6 +130,10 @@ func AlphabetUpdate(id, args)
         ((notifs.len == old(notifs).len + 1) == (voted(old(xcalls("Vote")).len) >= thr(old(store))))
   ensures [C17] !notaryDisabled(old(store)) ==> W(alphabet())
   ensures [C17] forall k Bytes {store.opt(k)} :: k != "ballots" && k != "alphabet" ==> store.opt(k) == old(store).opt(k)
+  // the vote is cast for, and a fired decision clears, the ballot of this decision id (votes for different ids never mix)
+  ensures [C17] xcalls("Vote").len == old(xcalls("Vote")).len + 1 ==> exists v Bytes :: xcalls("Vote")[old(xcalls("Vote")).len] == ev_Vote(id, v)
+  ensures [C17] xcalls("RemoveVotes").len == old(xcalls("RemoveVotes")).len || (xcalls("RemoveVotes").len == old(xcalls("RemoveVotes")).len + 1
+        && xcalls("RemoveVotes")[old(xcalls("RemoveVotes")).len] == ev_RemoveVotes(id))
   loop 0
     invariant store == old(store) && notifs == old(notifs) && xcalls == old(xcalls) && xcalls("Vote").len == old(xcalls("Vote")).len
     invariant xcalls("RemoveVotes").len == old(xcalls("RemoveVotes")).len
@@ -132,6 +144,10 @@ func InnerRingCandidateRemove(key)
   ensures [C17] !W(key) && notaryDisabled(old(store)) && old(store).has("alphabet") && old(store).has("candidates" ++ key) ==>
         (!store.has("candidates" ++ key) == (voted(old(xcalls("Vote")).len) >= thr(old(store))))
   ensures [C17] W(key) ==> !store.has("candidates" ++ key)
+  // the vote is cast for, and a fired decision clears, the ballot of this decision: sha256(key ++ "delete")
+  ensures [C17] xcalls("Vote").len == old(xcalls("Vote")).len + 1 ==> exists v Bytes :: xcalls("Vote")[old(xcalls("Vote")).len] == ev_Vote(sha256(key ++ "delete"), v)
+  ensures [C17] xcalls("RemoveVotes").len == old(xcalls("RemoveVotes")).len || (xcalls("RemoveVotes").len == old(xcalls("RemoveVotes")).len + 1
+        && xcalls("RemoveVotes")[old(xcalls("RemoveVotes")).len] == ev_RemoveVotes(sha256(key ++ "delete")))
   ensures [C17] forall k Bytes {store.opt(k)} :: k != "ballots" && k != "candidates" ++ key ==> store.opt(k) == old(store).opt(k)
 @*/
 
